@@ -41,6 +41,18 @@ for sid in ids:
     json.dump(meta, open(os.path.join(d, 'meta.json'), 'w'), indent=1)
     rows.append((sid, prop, det.get('outcome', det.get('note', '')), ', '.join(det.get('failing_units', [])), (det.get('failing_clauses') or [''])[0]))
     print(sid, prop, det.get('outcome', det.get('note')), det.get('failing_units'))
+# the summary lists EVERY seed: the ones not re-run in this invocation keep the outcome recorded in their meta.json
+done = {r[0] for r in rows}
+for sid in sorted(os.path.basename(d) for d in glob.glob(os.path.join(HERE, 'seeded', '*')) if os.path.isdir(d)):
+    if sid in done:
+        continue
+    try:
+        meta = json.load(open(os.path.join(HERE, 'seeded', sid, 'meta.json')))
+    except OSError:
+        continue
+    det = meta.get('verif_detection') or {}
+    rows.append((sid, meta.get('breaks_property', sid.split('-')[0]), det.get('outcome', det.get('note', 'not run yet')), ', '.join(det.get('failing_units', [])), (det.get('failing_clauses') or [''])[0]))
+rows.sort()
 with open(os.path.join(HERE, 'seeded', 'SUMMARY.md'), 'w') as fh:
     fh.write('| seed | property | outcome of the property\'s quick check | failing units | first failing clause |\n|---|---|---|---|---|\n')
     for r in rows:
